@@ -80,7 +80,9 @@ THEOREMS = [("Kopf.Props.C06", "Kopf.C06." + n) for n in [
     "add_on_match", "remove_on_mismatch", "add_remove_on_match",
     "requires_iff", "requires_order_irrelevant", "requires_every_registration", "dedup_before_match_loses_requirement_witness",
     "sync_task_done_implies_returned", "sync_cancellation_not_lost", "sync_task_finishes_after_return", "stop_no_delay_spec",
-    "release_waits_for_sync_daemon", "detached_thread_witness", "detached_release_witness"]]
+    "release_waits_for_sync_daemon", "detached_thread_witness", "detached_release_witness",
+    "never_two_invocations", "live_invocation_is_recorded", "no_delay_only_when_all_exited_or_abandoned",
+    "respawn_over_abandoned_witness", "respawn_two_alive_witness"]]
 TIE_THEOREMS = [("Kopf.Tie.C06", "Kopf.C06.Tie." + n) for n in [
     "mustBlock_eq", "add_eq", "remove_eq", "early_eq", "release_eq", "wait_eq", "effects_eq", "decision_eq", "carry_eq", "changed_eq"]]
 RULE = ("D: finalizer lists over an alphabet with the own name 0-3 times, look-alikes, unicode, empty/absent containers, bodies with "
@@ -90,7 +92,11 @@ RULE = ("D: finalizer lists over an alphabet with the own name 0-3 times, look-a
         "filters, another resource, explicit ids) x objects (labels, annotations, marked) x exclusion sets; S/A: seeded scenarios with 0-2 deletion handlers "
         "(optional/mandatory, label filters, one function STACKED twice under one id with different filters, outcome scripts, "
         "retries, invocations that take time), daemons (obey/cancel/ignore/exit/linger = slow clean-up after the flag; cancellation "
-        "timeouts incl. 0, a backoff without a timeout, none at all; stacked registrations), timers (instant or slow invocations, "
+        "timeouts incl. 0, a backoff without a timeout, none at all; stacked registrations; drag = a clean-up of 0.5-12 s after the stop that "
+        "swallows cancellations and then exits: an invocation given up on after its timeout is seen to END later), a family of RE-MATCH "
+        "histories (gen_rematch: the label filter of a daemon/timer stops matching, 0-2 visits meanwhile, the label comes back 0.25-13 s later "
+        "= before/after the cancellation timeout and before/after the previous invocation has ended, 1-3 such rounds, more edits, optional "
+        "restart, then the deletion), timers (instant or slow invocations, "
         "stacked), a configured finalizer name (kopf's default name is then a foreign finalizer), non-requiring handlers, event handlers with "
         "constant results (no-op merge content) or with state-checking patch fns that have nothing to change, label/spec edits, "
         "foreign finalizer edits, strip of the own finalizer, deletion at random moments, stops/kills/restarts, slips (a foreign "
@@ -107,7 +113,7 @@ TRUSTED = ["harness/props/threads_c06.py (real loop + ThreadPoolExecutor; gates 
            "executor future's done-callbacks have run; the minimal worker feeding process_resource_event one cycle per stored version; "
            "'function running' is read on the loop thread at the instant of the write)",
            "harness/props/sim_c06.py (stacked registrations, handler-supplied patch fns, foreign-finalizer ops for a configured finalizer name, "
-           "the `linger` daemon) on top of harness/sim (virtual-time loop, fake API server incl. JSON-patch `test` → 422 and deletion by last-finalizer removal, "
+           "the `linger` and `drag` daemons, the per-invocation watcher of the `stopped` kwarg = the instant an invocation was told to stop) on top of harness/sim (virtual-time loop, fake API server incl. JSON-patch `test` → 422 and deletion by last-finalizer removal, "
            "scripted handlers/daemons, attribute-level observation of kopf)",
            "pyextract atom vocabulary for the finalizer block of processing.process_resource_causes",
            "abstraction of a cycle: matching = label filters of the scenario's handlers evaluated on the body the cycle was given; "
@@ -863,6 +869,77 @@ def gen_scenario(rng: Any, seed: int) -> dict:
     return sc
 
 
+def gen_rematch(rng: Any, seed: int) -> dict:
+    """Re-match histories: a daemon/timer is told to stop NOT by a deletion (its label filter stops matching), takes its time
+    (longer or shorter than its cancellation timeout: given up on while alive, or not), the object matches again while the
+    previous invocation is still there or after it has gone, the previous invocation ends at some moment before/after that,
+    possibly more edits and toggles follow, and then the object is deleted (or an operator restart comes in between)."""
+    lab = rng.choice(["l", "m"])
+    handlers: list[dict] = []
+    after = rng.choice([0.5, 1.5, 3.0, 6.0, 12.0])
+    if rng.random() < 0.85:
+        mode = rng.choice(["drag", "drag", "drag", "linger", "ignore", "cancel", "obey"])
+        opts: dict[str, Any] = {"labels": {lab: "1"}}
+        if mode in ("drag", "ignore", "cancel") or rng.random() < 0.5:
+            if rng.random() < 0.85:
+                opts["cancellation_timeout"] = rng.choice([0, 0.5, 1.0, 1.0, 2.0, 4.0])
+            if rng.random() < 0.3:
+                opts["cancellation_backoff"] = rng.choice([0.5, 1.0])
+        if rng.random() < 0.6:
+            opts["cancellation_polling"] = rng.choice([0.25, 0.5, 1.0])
+        hd: dict[str, Any] = {"kind": "daemon", "id": "dm", "opts": opts,
+                              "daemon": {"mode": mode, "after": after, "poll": 0.5, "max_ignored": rng.choice([1, 3, 5])}}
+        if rng.random() < 0.12:
+            common = {kk: vv for kk, vv in opts.items() if kk != "labels"}
+            hd["stack"] = [{**common, "labels": {"l": "1"}}, {**common, "labels": {"m": "1"}}]
+        handlers.append(hd)
+    else:
+        handlers.append({"kind": "timer", "id": "tm", "opts": {"interval": rng.choice([1.0, 3.0]), "labels": {lab: "1"}}, "script": [],
+                         "default": ["sleep", rng.choice([2.0, 4.0, 8.0]), "ok"]})
+    if rng.random() < 0.3:
+        handlers.append({"kind": "delete", "id": "d0", "opts": ({"optional": True} if rng.random() < 0.4 else {}), "script": [], "default": "ok"})
+    if rng.random() < 0.3:
+        handlers.append({"kind": "update", "id": "ux", "opts": {}, "script": [], "default": "ok"})
+    other = "m" if lab == "l" else "l"
+    labels = {lab: "1", other: rng.choice(["0", "0", "1"]) if "stack" not in handlers[0] else "0"}
+    body: dict[str, Any] = {"spec": {"x": 0}, "metadata": {"labels": dict(labels)}}
+    if rng.random() < 0.2:
+        body["metadata"]["finalizers"] = ["other.io/a"]
+    settings: dict[str, Any] = {"execution.default_backoff": 1.0, "background.cancellation_polling": rng.choice([0.5, 1.0])}
+    if rng.random() < 0.15:
+        settings["persistence.finalizer"] = rng.choice(CUSTOM_OWNS)
+    t = 1.0
+    timeline: list[list] = [[t, "create", "a", body]]
+    gaps = [0.25, 0.5, 1.0, 1.5, 2.5, 4.0, 7.0, 13.0]
+    for _ in range(rng.choice([1, 1, 1, 2, 2, 3])):
+        t += rng.choice(gaps)
+        timeline.append([t, "edit", "a", {"metadata": {"labels": {lab: "0"}}}])        # told to stop: the filter mismatches
+        for _ in range(rng.choice([0, 0, 1, 2])):
+            t += rng.choice(gaps[:6])
+            timeline.append([t, "edit", "a", {"spec": {"x": rng.randrange(1, 100)}}])   # more visits while it is being stopped
+        t += rng.choice(gaps)
+        timeline.append([t, "edit", "a", {"metadata": {"labels": {lab: "1"}}}])        # matches again
+        for _ in range(rng.choice([0, 0, 1, 1, 2])):
+            t += rng.choice(gaps)
+            timeline.append([t, "edit", "a", {"spec": {"x": rng.randrange(1, 100)}}])   # life goes on
+    r = rng.random()
+    if r < 0.15:
+        ts = t + rng.choice(gaps)
+        timeline.append([ts, rng.choice(["stop", "kill"])])
+        t = ts + rng.choice([0.5, 2.0, 5.0])
+        timeline.append([t, "start"])
+    if r < 0.9:
+        t += rng.choice(gaps)
+        timeline.append([t, "delete", "a"])
+        if body["metadata"].get("finalizers"):
+            t += rng.choice([1.0, 4.0])
+            timeline.append([t, "fins", "a", []])
+    sc: dict[str, Any] = {"seed": seed, "handlers": handlers, "timeline": timeline, "settings": settings, "end": t + 40.0, "family": "rematch"}
+    if rng.random() < 0.1:
+        sc["status_subresource"] = True
+    return sc
+
+
 # ---- reading a trace ------------------------------------------------------------------------------
 OWN_FNS = ("block_deletion", "allow_deletion")
 
@@ -1010,7 +1087,14 @@ class View:
                     # life that is marked or that its filters do not match (kopf counts from its own first stop call)
                     stops = [v["t"] for v in self.versions(uid) if v["t"] >= c["t"] and v["event"] != "DELETED" and
                              (_meta(v["body"]).get("deletionTimestamp") or not _match(h, _labels(v["body"])))]
-                    if h["kind"] == "daemon" and to is not None and stops and T >= min(stops) + (o.get("cancellation_backoff") or 0) + to:
+                    since = min(stops) if stops else None
+                    if c.get("flag_watch"):
+                        # observed from outside the function (sim_c06): the instant THIS invocation was told to stop. One that
+                        # was never told to stop has not been "abandoned after its timeouts", whatever the object went through
+                        # (and whatever happened to earlier invocations under the same id); the timeouts run from that instant.
+                        ft = c.get("flag_t")
+                        since = None if ft is None or ft > T else (ft if since is None else max(since, ft))
+                    if h["kind"] == "daemon" and to is not None and since is not None and T >= since + (o.get("cancellation_backoff") or 0) + to:
                         continue
                     why.append(f"{h['kind']} {h['id']} (started {c['t']}) is alive")
                 # a timer's task lives between its invocations too: while the object is not marked and matches it,
@@ -1924,8 +2008,10 @@ def run(ctx: Ctx) -> None:
     run_registry(ctx)
     n = ctx.budget(200, 10000)
     corpus = _corpus()
-    scenarios = [sc for _, sc in corpus] + [gen_scenario(ctx.rng, ctx.seed * 1_000_000 + i) for i in range(n)]
-    names: list[str | None] = [nm for nm, _ in corpus] + [None] * n
+    nr = ctx.budget(60, 3000)
+    scenarios = [sc for _, sc in corpus] + [gen_rematch(ctx.rng, ctx.seed * 1_000_000 + 500_000 + i) for i in range(nr)] + \
+        [gen_scenario(ctx.rng, ctx.seed * 1_000_000 + i) for i in range(n)]
+    names: list[str | None] = [nm for nm, _ in corpus] + [None] * (nr + n)
     for sc in scenarios:
         for h in sc.get("handlers", []):
             ctx.count("S.handler_kinds", h["kind"] + ("(optional)" if (h.get("opts") or {}).get("optional") else "")
@@ -1935,6 +2021,10 @@ def run(ctx: Ctx) -> None:
         ctx.count("S.faults", len(sc.get("faults", [])))
         ctx.count("S.restarts", sum(1 for e in sc["timeline"] if e[1] in ("stop", "kill")))
         ctx.count("S.deleted", any(e[1] == "delete" for e in sc["timeline"]))
+        ctx.count("S.family", sc.get("family", "general"))
+        for h in sc.get("handlers", []):
+            if h["kind"] == "daemon":
+                ctx.count("S.daemon_mode", h["daemon"]["mode"])
         ctx.count("S.lost_echoes (echo delay + cut streams)", bool(sc.get("echo_delay")))
     run_scenarios(ctx, scenarios, names)
     ctx.extra["notes"] = ctx.notes
@@ -1956,7 +2046,8 @@ def search(ctx: Ctx, broken: list) -> None:
     if found():
         return
     n = ctx.budget(1500, 8000)
-    scenarios = [gen_scenario(ctx.rng, 7_000_000 + ctx.seed * 1_000_000 + i) for i in range(n)]
+    scenarios = [gen_rematch(ctx.rng, 7_500_000 + ctx.seed * 1_000_000 + i) for i in range(n // 5)] + \
+        [gen_scenario(ctx.rng, 7_000_000 + ctx.seed * 1_000_000 + i) for i in range(n)]
     directed: list[dict] = []
     seen_sc: set[str] = set()
     for b in broken[:40]:
